@@ -18,5 +18,6 @@ import Cutadapt.Proofs.KmerCompose
 #print axioms Cutadapt.C07.prefilter_not_safe
 #print axioms Cutadapt.C07.prefilter_only_removes
 #print axioms Cutadapt.C07.prefilter_safe_partial
+#print axioms Cutadapt.C07.generated_prefilter_tolerance
 #print axioms Cutadapt.C07.locateSound_of_ok
 #print axioms Cutadapt.C07.prefilter_safe_partial_unconditional
